@@ -925,6 +925,85 @@ static void recycled_state(void)
 				}
 }
 
+/* the same for the zlib reader, and across the two readers: a zlib (or gzip) header that stops short, isal_inflate_reset(), then a complete
+ * zlib header (FDICT present / absent) in one call or cut at every byte; and a zlib header that stops short followed by a gzip header */
+static void recycled_state_zlib(void)
+{
+	static const uint8_t gz1[] = { 0x1f, 0x8b, 8, 0x1c, 1, 2, 3, 4, 0, 3, 3, 0, 'e', 'x', 't', 'n', 'a', 'm', 'e', 0, 'c', 'o', 'm', 0 };
+	char key[300];
+	for (int first = 0; first < 3; first++)       /* 0 zlib without FDICT, 1 zlib with FDICT, 2 gzip with all string fields */
+		for (int df2 = 0; df2 < 3; df2++) {   /* second header: zlib without / with FDICT, 2 = gzip name-only */
+			uint8_t h1[32], h2[32];
+			struct rh_zlib z1 = { 7, 3, first == 1, 0x0badf00du }, z2 = { 5, 1, df2 == 1, 0xa1b2c3d4u };
+			struct rh_gzip g2 = { 0, 0x55667788u, 2, 3, NULL, -1, "nm", NULL, 0 };
+			size_t l1 = first == 2 ? sizeof gz1 : rh_zlib_write(h1, &z1);
+			if (first == 2) memcpy(h1, gz1, sizeof gz1);
+			size_t l2 = df2 == 2 ? rh_gzip_write(h2, &g2) : rh_zlib_write(h2, &z2);
+			h2[l2] = 0x03; h2[l2 + 1] = 0x00;
+			for (size_t cut = 1; cut < l1; cut++)
+				for (size_t split = 0; split < l2; split++) { /* 0: one call */
+					struct inflate_state *st = g_alloc(sizeof *st, (cut + split) & 1 ? G_END : G_START);
+					struct isal_zlib_header zh;
+					struct isal_gzip_header gh;
+					uint8_t nb[16];
+					int ret1 = -999, ret2 = -999;
+					size_t stop = 0;
+					snprintf(key, sizeof key, "reader after isal_inflate_reset: %s header abandoned after %zu of %zu bytes; then %s header %s", first == 2 ? "gzip" : first ? "zlib+FDICT" : "zlib", cut, l1,
+						 df2 == 2 ? "gzip(name only)" : df2 ? "zlib+FDICT" : "zlib", split ? "in two calls" : "in one call");
+					if (V_TRY()) {
+						memset(st, 0x5A, sizeof *st);
+						isal_inflate_init(st);
+						isal_zlib_header_init(&zh);
+						isal_gzip_header_init(&gh);
+						uint8_t *in = g_alloc(cut, G_END);
+						memcpy(in, h1, cut);
+						st->next_in = in; st->avail_in = cut;
+						ret1 = first == 2 ? isal_read_gzip_header(st, &gh) : isal_read_zlib_header(st, &zh);
+						isal_inflate_reset(st);
+						isal_zlib_header_init(&zh);
+						isal_gzip_header_init(&gh);
+						memset(nb, 0xCC, sizeof nb);
+						gh.name = (char *)nb; gh.name_buf_len = sizeof nb;
+						size_t k = split ? split : l2 + 2;
+						uint8_t *in2 = g_alloc(k, G_END);
+						memcpy(in2, h2, k);
+						st->next_in = in2; st->avail_in = k;
+						ret2 = df2 == 2 ? isal_read_gzip_header(st, &gh) : isal_read_zlib_header(st, &zh);
+						stop = k - st->avail_in;
+						if (split && ret2 == ISAL_END_INPUT && st->avail_in == 0) {
+							size_t k2 = l2 + 2 - k;
+							uint8_t *in3 = g_alloc(k2, G_END);
+							memcpy(in3, h2 + k, k2);
+							st->next_in = in3; st->avail_in = k2;
+							ret2 = df2 == 2 ? isal_read_gzip_header(st, &gh) : isal_read_zlib_header(st, &zh);
+							stop = k + k2 - st->avail_in;
+						}
+						V_END();
+					} else {
+						v_violation(key, "%s", v_fault_desc());
+						nfail++;
+						g_reset();
+						continue;
+					}
+					v_eval();
+					if (ret1 != ISAL_END_INPUT)
+						v_violation(key, "truncated first header returned %d, expected ISAL_END_INPUT", ret1), nfail++;
+					else if (ret2 != ISAL_DECOMP_OK || stop != l2)
+						v_violation(key, "second header returned %d and stopped at %zu (header is %zu bytes)", ret2, stop, l2), nfail++;
+					else if (df2 == 2 ? (strcmp((char *)nb, "nm") || nb[3] != 0xCC || gh.time != g2.mtime || gh.os != 3)
+							  : (zh.info != 5 || zh.level != 1 || zh.dict_flag != (uint32_t)(df2 == 1) || (df2 == 1 && zh.dict_id != z2.dictid)))
+						v_violation(key, "second header fields differ (zlib: info %u level %u dict_flag %u dict_id %08x; gzip name '%.8s')", zh.info, zh.level, zh.dict_flag, zh.dict_id, df2 == 2 ? (char *)nb : ""), nfail++;
+					if (g_check())
+						v_violation(key, "%s", g_last_damage()), nfail++;
+					g_reset();
+					v_count("recycled_state_headers", 1);
+					v_nontrivial(v_mix(0x21b + first * 3 + df2, cut * 64 + split));
+					if (nfail > 20)
+						return;
+				}
+		}
+}
+
 int main(int argc, char **argv)
 {
 	v_init(argc, argv, "C19");
@@ -944,6 +1023,7 @@ int main(int argc, char **argv)
 		recycled_state();
 		if (v_shard == 0) {
 			zlib_reader();
+			recycled_state_zlib();
 			huge_avail_in();
 		}
 		arbitrary();
